@@ -118,7 +118,7 @@ pub fn gen(tier: &str, seed: u64, out: &mut dyn FnMut(Value)) {
         out(json!({"op": "xpath", "s": s, "tag": "exhaustive", "nt": nt}));
     });
     let mut rng = Rng::new(seed);
-    let n = if tier == "thorough" { 40000 } else { 4000 };
+    let n = if tier == "thorough" { 200000 } else { 16000 };
     let mut sample = vec![];
     for i in 0..n {
         let p = random_path(&mut rng);
@@ -157,7 +157,7 @@ pub fn gen(tier: &str, seed: u64, out: &mut dyn FnMut(Value)) {
         }
     }
     // equality / hash on all pairs of a sample that contains near-duplicates
-    let mut pool: Vec<String> = sample.iter().take(if tier == "thorough" { 120 } else { 60 }).cloned().collect();
+    let mut pool: Vec<String> = sample.iter().take(if tier == "thorough" { 600 } else { 120 }).cloned().collect();
     let extra: Vec<String> = pool.iter().take(20).map(|p| format!("{p}.x")).collect();
     pool.extend(extra);
     pool.extend([".a.b".to_string(), ".\"a.b\"".into(), ".\"a\".b".into(), ".a.\"b\"".into(), ".ab".into(), ".a".into(), ".b.a".into()]);
